@@ -1,15 +1,16 @@
-\* manual mode, "wide": all identifiers incl. nullptr, remove(), ties and past time points; <= 3 sleeps pending
+\* manual mode, "deep": one identifier (every sleep is a duplicate), up to 5 pending sleeps in an array of 6:
+\* exercises the sift-down paths of pop_heap and find_if over several emptied entries
 SPECIFICATION Spec
 CONSTANTS
   Mode = "manual"
   TPs = {1, 2}
-  Nows = {0, 1, 2}
-  Ids = {0, 1, 2}
-  CancelIds = {0, 1, 2}
-  MaxSleeps = 3
-  MaxHeap = 3
+  Nows = {1, 2}
+  Ids = {1}
+  CancelIds = {1}
+  MaxSleeps = 5
+  MaxHeap = 6
   MaxOps = 0
-  AllowRemove = TRUE
+  AllowRemove = FALSE
   Interval = 0
   NC = 1
 INVARIANTS TypeOK HeapWellFormed LiveMatchesPending NeverEarly DeadlineOrder PromptManual CancelHitsOne NotifyWhenEarliest NothingAfterDestroy IntervalConsistent
